@@ -1,4 +1,5 @@
 import OcVerif.Proofs.Pool
+import OcVerif.Model.LoopStop
 /-!
 # C12 — pool lifecycle: stop rejects new work and settles every waiter
 -/
@@ -106,5 +107,98 @@ theorem C12_nested_submission_rejected (p : Pool) (t : Nat) (h : p.state ≠ .ru
 theorem C12_nested_submission_accepted (p : Pool) (t : Nat) (h : p.state = .running) :
     (nestSubmit p t).tasks = p.tasks.push 0 p.progs.length ∧ (nestSubmit p t).nested = p.nested ++ [(t, true)] := by
   unfold nestSubmit; simp [h]
+
+/-! ## `EventLoops::stop`: the count of running loops -/
+section LoopStop
+open Oc.LoopStop
+
+theorem countP_set_pc (l : List Pc) (i : Nat) (a b : Pc) (h : l[i]? = some a) (q : Pc → Bool) :
+    (l.set i b).countP q + (if q a then 1 else 0) = l.countP q + (if q b then 1 else 0) := by
+  induction l generalizing i with
+  | nil => simp at h
+  | cons x xs ih =>
+    cases i with
+    | zero =>
+      simp at h; subst h
+      simp only [List.set_cons_zero, List.countP_cons]
+      split <;> split <;> omega
+    | succ i =>
+      simp at h
+      have := ih i h
+      simp only [List.set_cons_succ, List.countP_cons]
+      omega
+
+/-- after the repair: the count is exactly the number of loops whose thread exists and has not finished -/
+def InvL (s : S) : Prop := s.countAtStart = true → s.count = alive s
+
+theorem invL_step (s : S) (a : Act) (h : InvL s) : InvL (step s a) := by
+  intro hc
+  have hcs : s.countAtStart = true := by
+    cases a <;> (simp only [step] at hc; split at hc <;> first | exact hc | (try split at hc) <;> exact hc)
+  have h0 := h hcs
+  cases a with
+  | start i =>
+    simp only [step]
+    split
+    · rename_i hp
+      have := countP_set_pc s.pcs i .created .spawned hp (fun p => p == .spawned || p == .running)
+      simp [alive, hcs] at this ⊢
+      unfold alive at h0; omega
+    · exact h0
+  | thread i =>
+    simp only [step]
+    split
+    · rename_i hp
+      have := countP_set_pc s.pcs i .spawned .running hp (fun p => p == .spawned || p == .running)
+      simp [alive, hcs] at this ⊢
+      unfold alive at h0; omega
+    · rename_i hp
+      have := countP_set_pc s.pcs i .running .exited hp (fun p => p == .spawned || p == .running)
+      simp [alive] at this ⊢
+      unfold alive at h0; omega
+    · exact h0
+
+theorem invL_foldl (as : List Act) : ∀ (s : S), InvL s → InvL (as.foldl step s) := by
+  induction as with
+  | nil => intro s h; exact h
+  | cons a rest ih => intro s h; exact ih _ (invL_step s a h)
+
+theorem countAtStart_step (s : S) (a : Act) : (step s a).countAtStart = s.countAtStart := by
+  cases a <;> (simp only [step]; split <;> first | rfl | (try split) <;> rfl)
+
+theorem countAtStart_foldl (as : List Act) : ∀ (s : S), (as.foldl step s).countAtStart = s.countAtStart := by
+  induction as with
+  | nil => intro s; rfl
+  | cons a rest ih => intro s; simp only [List.foldl_cons]; rw [ih, countAtStart_step]
+
+/-- **A stop that sees zero has nothing left to wait for.** For every number of loops and every
+interleaving of `start` calls and thread steps (threads may be scheduled arbitrarily late): when
+`stop` reads zero, no loop is in between — each is either not started at all or has finished its
+loop, i.e. has run everything that was accepted before stopping began. -/
+theorem C12_stop_sees_zero_only_when_all_exited (n : Nat) (as : List Act) (i : Nat) (p : Pc)
+    (hz : stopSeesZero (run { pcs := List.replicate n .created } as) = true)
+    (hp : (run { pcs := List.replicate n .created } as).pcs[i]? = some p) : p = .created ∨ p = .exited := by
+  have hinv : InvL (run { pcs := List.replicate n .created } as) := by
+    unfold run
+    apply invL_foldl
+    intro _
+    simp [alive, List.countP_replicate]
+  have hcs : (run { pcs := List.replicate n .created } as).countAtStart = true := by
+    unfold run; rw [countAtStart_foldl]
+  have hcount := hinv hcs
+  simp only [stopSeesZero, beq_iff_eq] at hz
+  rw [hz] at hcount
+  have hnone := List.countP_eq_zero.mp hcount.symm
+  have hmem := List.mem_of_getElem? hp
+  have := hnone p hmem
+  cases p <;> simp at this ⊢
+
+/-- Before the repair the thread raised the count itself: a stop right after `start` sees zero
+although the loop has not run anything yet. -/
+theorem C12_old_stop_before_thread_ran :
+    stopSeesZero (run { pcs := [.created], countAtStart := false } [.start 0]) = true ∧
+    (run { pcs := [.created], countAtStart := false } [.start 0]).pcs = [.spawned] := by decide
+
+end LoopStop
 
 end Oc.Props.C12
